@@ -51,93 +51,78 @@ def run(ck: Checker, prog: Program, tier: str):
 
 
 def _r1(ck: Checker, prog: Program):
+    """Welch estimate by canonicalisation with an object heap (copies, in-place tapers): psd = 2 sum_k Re(conj(F_k) F_k) /
+    (mean(w^2) L fs K), F_k = rfft(taper(copy of window k)), w = the same taper applied to ones of the window length."""
+    from .procmodel import RowExec, Body, taper as TAPER, rfft_ as RFFT
     f = prog.func("processing._rpds_single_component")
     q = f.qualname
     loops = [st for st in f.node.body if isinstance(st, ast.For)]
-    if len(loops) != 1 or unparse(loops[0].iter) != f.params[0]:
+    if len(loops) != 1 or unparse(loops[0].iter) != f.params[0] or not isinstance(loops[0].target, ast.Name):
         raise AnalysisError(f"{q}: loop over the windows not found")
     lp = loops[0]
-    ts = unparse(lp.target)
-    # per-window term
+    ts = lp.target.id
     A = sp.Symbol("A", positive=True)
-    taper, rfft_ = sp.Function("taper"), sp.Function("rfft")
-    state = {"amp": A, "copied": False}
-    T = Translator()
-
-    def hook(call, TT):
-        nm = call_name(call)
-        if nm == "rfft" and call.args:
-            if not any(k.arg is None and unparse(k.value) == "settings.fft_settings" for k in call.keywords):
-                ck.violation("C17.R1", q, norm_key(call), "rfft is not called with **settings.fft_settings", loc=f.loc(call))
-            return rfft_(TT.tr(call.args[0]))
-        if nm == "real" and call.args:
-            return sp.Function("Re")(TT.tr(call.args[0]))
-        return None
-    T.call_hook = hook
-    T.symbol_hook = lambda name: state["amp"] if name == f"{ts}.amplitude" else None
-    acc = None
-    for st in lp.body:
-        if isinstance(st, ast.Assign) and unparse(st.targets[0]) == ts and isinstance(st.value, ast.Call) and call_name(st.value) == "from_timeseries" \
-                and unparse(st.value.args[0]) == ts:
-            state["copied"] = True
-        elif isinstance(st, ast.Expr) and isinstance(st.value, ast.Call) and call_name(st.value) == "window" and unparse(st.value.func.value) == ts:
-            if not state["copied"]:
-                ck.violation("C17.R1", q, norm_key(st), "the taper is applied to the caller's window instead of a copy", loc=f.loc(st))
-            if [unparse(a) for a in st.value.args] != ["*settings.window_type_and_width"]:
-                ck.violation("C17.R1", q, norm_key(st), "the data taper does not use *settings.window_type_and_width", loc=f.loc(st))
-            state["amp"] = taper(state["amp"])
-        elif isinstance(st, ast.Assign) and isinstance(st.targets[0], ast.Name):
-            T.env[st.targets[0].id] = T.tr(st.value)
-        elif isinstance(st, ast.AugAssign) and unparse(st.target) == "psd" and isinstance(st.op, ast.Add):
-            acc = T.tr(st.value)
-    F = rfft_(taper(A))
-    want = sp.Function("Re")(sp.conjugate(F) * F)
-    if acc is not None and equal(acc, want):
-        d = degree(acc, {A: 1}, {"taper": 1, "rfft": 1, "Re": 1})
+    body = Body(f, lp, lp, "<none>", ts, "<dt>", None, None)
+    ex = RowExec(prog, body)
+    ex.heap[ex.rec_obj]["amplitude"] = A
+    acc_names = [st.target.id for st in lp.body if isinstance(st, ast.AugAssign) and isinstance(st.target, ast.Name) and isinstance(st.op, ast.Add)]
+    if len(acc_names) != 1:
+        raise AnalysisError(f"{q}: expected one accumulator in the loop over the windows, found {acc_names}")
+    acc_name = acc_names[0]
+    P = sp.Symbol("P", positive=True)
+    ex.T.env[acc_name] = P
+    ex.run(lp.body)
+    for st in ex.inplace_on_record:
+        ck.violation("C17.R1", q, norm_key(st), "the taper is applied to the caller's window instead of a copy", loc=f.loc(st))
+    for n in ex.notes:
+        ck.violation("C17.R1", q, n[:80], n, loc=f.loc(lp))
+    acc = sp.expand(ex.T.env[acc_name] - P)
+    F = RFFT(TAPER(A))
+    want = sp.Function("real")(sp.conjugate(F) * F)
+    if equal(acc, want):
+        d = degree(acc, {A: 1}, {"taper": 1, "rfft": 1, "real": 1})
         ck.ok("C17.R1", q, "psd += Re(conj(F) F), F = rfft(taper(copy))", detail=f"degree {d} in the amplitude")
         if d != 2:
             ck.violation("C17.R1", q, "degree of the periodogram", f"the accumulated term has degree {d} in the amplitude, expected 2", loc=f.loc(lp))
     else:
         ck.violation("C17.R1", q, "periodogram term", f"the accumulated term is {acc}; expected {want}", loc=f.loc(lp))
     # scaling chain after the loop
-    after = [st for st in f.node.body if st.lineno > lp.end_lineno]
+    order = {id(n): i for i, n in enumerate(ast.walk(f.node))}
+    idx = f.node.body.index(lp)
+    after = f.node.body[idx + 1:]
     P0 = sp.Symbol("P0", positive=True)
-    T2 = Translator(env={"psd": P0})
-    forward_substitute([st for st in after if isinstance(st, (ast.Assign, ast.AugAssign))], T2)
-    final = T2.env.get("psd")
-    wsf = T2.sym("window_scaling_factor") if "window_scaling_factor" not in T2.env else T2.env["window_scaling_factor"]
-    L, fs, K = T2.sym(f"{ts}.n_samples"), T2.sym(f"{ts}.fs"), sp.Function("len")(T2.sym(f.params[0]))
-    want_final = P0 * 2 / (wsf * L * fs * K)
-    if final is not None and equal(final, want_final):
-        ck.ok("C17.R1", q, "psd *= 2 / (mean(w^2) * n_samples * fs * len(windows))", detail=str(sp.simplify(final / P0)))
-    else:
-        ck.violation("C17.R1", q, "Welch scaling",
-                     f"the accumulated spectrum is scaled by {sp.simplify(final / P0) if final is not None else None}; "
-                     f"the one-sided density requires 2/(mean(w^2) * L * fs * K)", loc=f.loc())
-    # window scaling factor = mean(w^2) of the taper applied to ones, same settings expression
-    wdef = [st for st in after if isinstance(st, ast.Assign) and unparse(st.targets[0]) == "window"]
-    wtap = [st for st in after if isinstance(st, ast.Expr) and isinstance(st.value, ast.Call) and call_name(st.value) == "window" and unparse(st.value.func.value) == "window"]
-    wsf_def = [st for st in after if isinstance(st, ast.Assign) and unparse(st.targets[0]) == "window_scaling_factor"]
-    good = len(wdef) == 1 and len(wtap) == 1 and len(wsf_def) == 1
-    if good:
-        c = wdef[0].value
-        amp = kwarg(c, "amplitude") or (c.args[0] if c.args else None)
-        good = call_name(c) == "TimeSeries" and amp is not None and unparse(amp) == f"np.ones_like({ts}.amplitude)" \
-            and [unparse(a) for a in wtap[0].value.args] == ["*settings.window_type_and_width"] \
-            and unparse(wsf_def[0].value) in ("np.mean(window.amplitude ** 2)", "np.mean(window.amplitude * window.amplitude)", "np.mean(np.square(window.amplitude))") \
-            and wdef[0].lineno < wtap[0].lineno < wsf_def[0].lineno
-    if good:
+    ex.T.env[acc_name] = P0
+    n_notes = len(ex.notes)
+    ex.run([st for st in after if not isinstance(st, ast.Return)])
+    final = ex.T.env.get(acc_name)
+    obj = ex.T.env.get(ts)
+    L, fs, K = sp.Symbol(f"{obj}.n_samples"), sp.Symbol(f"{obj}.fs"), sp.Function("len")(ex.T.sym(f.params[0]))
+    ones = sp.Function("ones_like")
+    mean = sp.Function("mean")
+    cands = [mean(TAPER(ones(X)) ** 2) for X in (A, TAPER(A))]
+    ratio = sp.simplify(final / P0) if final is not None else None
+    hit = ratio is not None and any(equal(ratio, 2 / (w2 * L * fs * K)) for w2 in cands)
+    if hit:
+        ck.ok("C17.R1", q, "psd *= 2 / (mean(w^2) * n_samples * fs * len(windows))", detail=str(ratio))
         ck.ok("C17.R1", q, "mean(w^2) of the taper applied to ones with the data taper's settings")
     else:
-        ck.violation("C17.R1", q, "taper power", "the taper's mean-square is not computed from the same taper (same settings expression) applied to ones of the window length, on every call",
+        uses_taper = ratio is not None and any(getattr(getattr(a, "func", None), "__name__", "") == "taper" for a in sp.preorder_traversal(ratio))
+        if ratio is not None and not uses_taper:
+            ck.violation("C17.R1", q, "taper power", "the taper's mean-square is not computed from the same taper (same settings expression) applied to ones of the window length, on every call",
+                         loc=f.loc())
+        ck.violation("C17.R1", q, "Welch scaling",
+                     f"the accumulated spectrum is scaled by {ratio}; the one-sided density requires 2/(mean(w^2) * L * fs * K) with w the data taper applied to ones",
                      loc=f.loc())
-    init = [st for st in f.node.body if isinstance(st, ast.Assign) and unparse(st.targets[0]) == "psd"]
-    if len(init) == 1 and call_name(init[0].value) == "zeros" and init[0].lineno < lp.lineno:
+    for n in ex.notes[n_notes:]:
+        ck.violation("C17.R1", q, "taper power", "the taper's mean-square is not computed from the same taper (same settings expression) applied to ones of the window length, on every call: " + n,
+                     loc=f.loc())
+    init = [st for st in f.node.body[:idx] if isinstance(st, ast.Assign) and unparse(st.targets[0]) == acc_name]
+    if len(init) == 1 and call_name(init[0].value) == "zeros":
         ck.ok("C17.R1", q, "accumulator starts at zero", nontrivial=False)
     else:
         ck.violation("C17.R1", q, "accumulator initialisation", "the accumulator is not initialised to zeros before the loop", loc=f.loc())
     rets = [r for r in own_nodes(f.node) if isinstance(r, ast.Return)]
-    if len(rets) == 1 and unparse(rets[0].value) == "psd":
+    if len(rets) == 1 and unparse(rets[0].value) == acc_name:
         ck.ok("C17.R1", q, "returns the scaled accumulator", nontrivial=False)
     else:
         ck.violation("C17.R1", q, "return", "does not return the scaled accumulator", loc=f.loc())
@@ -157,39 +142,79 @@ def _r1(ck: Checker, prog: Program):
 
 
 def _r2(ck: Checker, prog: Program):
+    """rpsd as a decision table (with / without smoothing): key c carries the PSD of component c of every record; through
+    the smoothing call the components keep their rows and the frequency axis becomes the centre frequencies."""
+    from ..pathtable import PathTable, literals
     f = prog.func("processing.rpsd")
     q = f.qualname
-    env = {unparse(st.targets[0]): st for st in f.node.body if isinstance(st, ast.Assign) and isinstance(st.targets[0], ast.Name)}
-    for c in ("ns", "ew", "vt"):
-        st = env.get(f"psd_{c}")
-        want = f"_rpds_single_component([record.{c} for record in records], settings)"
-        if st is not None and unparse(st.value) == want:
-            ck.ok("C17.R2", q, f"psd_{c} <- component {c}")
+    R = lambda n: sp.Symbol(n, real=True)   # noqa: E731
+    RECS, SET = R("records"), R("settings")
+    pt = PathTable(prog, f.module, unroll=True, structured=True, opaque=("prepare_fft_settings", "_rpds_single_component"))
+    leaves = [l for l in pt.leaves(f.node.body) if l.exit == "return"]
+    if not leaves:
+        raise AnalysisError(f"{q}: no returning path")
+    it0 = sp.Symbol("_it0")
+    comp, gen = sp.Function("comp"), sp.Function("gen")
+    gi = sp.Function("getitem")
+
+    def psd_of(c):
+        return sp.Function("_rpds_single_component")(comp(sp.Function("attr_" + c)(it0), gen(it0, RECS)), SET)
+    comps = ("ns", "ew", "vt")
+    no_sm = sp.Eq(sp.Function("attr_smoothing")(SET), sp.Symbol("None"), evaluate=False)
+    seen = set()
+    for l in leaves:
+        from ..pathtable import same_rel, negate
+        ls = literals(l)
+        smoothing = None
+        if any(same_rel(x, no_sm) for x in ls):
+            smoothing = False
+        elif any(same_rel(x, negate(no_sm)) for x in ls):
+            smoothing = True
+        if smoothing is None:
+            raise AnalysisError(f"{q}: a path does not decide whether smoothing is configured ({[str(x) for x in ls]})")
+        seen.add(smoothing)
+        v = l.value
+        entries = {}
+        if getattr(getattr(v, "func", None), "__name__", "") == "dict":
+            for a in v.args:
+                nm = getattr(a.func, "__name__", "")
+                if nm.startswith("kv_"):
+                    entries[nm[3:]] = a.args[0]
+        label = "with smoothing" if smoothing else "without smoothing"
+        if set(entries) != set(comps):
+            ck.violation("C17.R2", q, f"result keys ({label})", f"the result holds keys {sorted(entries)}; expected ns, ew, vt", loc=f.loc())
+            continue
+        bad = []
+        frqs = set()
+        sm_call = None
+        for i, c in enumerate(comps):
+            e = entries[c]
+            if getattr(getattr(e, "func", None), "__name__", "") != "Psd" or len(e.args) < 2:
+                bad.append(f"{c}: {e}")
+                continue
+            frqs.add(e.args[0])
+            val = e.args[1]
+            if not smoothing:
+                if val != psd_of(c):
+                    bad.append(f"key '{c}' carries {val}")
+            else:
+                if getattr(val, "func", None) == gi and val.args[1] == sp.Integer(i):
+                    call = val.args[0]
+                    sm_call = call
+                    rows = call.args[2] if len(call.args) >= 5 else (call.args[1] if len(call.args) >= 2 else None)
+                    # call(<operator>, frq, rows, fcs, bandwidth)
+                    if not (isinstance(rows, sp.Tuple) and list(rows) == [psd_of(x) for x in comps]):
+                        bad.append(f"the smoothing receives rows {rows}")
+                else:
+                    bad.append(f"key '{c}' carries {val} (expected row {i} of the smoothed spectra)")
+        if len(frqs) != 1:
+            bad.append(f"the three results carry different frequency axes {sorted(map(str, frqs))}")
+        if not bad:
+            ck.ok("C17.R2", q, f"{label}: key k carries component k" + (" (row k in and out of the smoothing)" if smoothing else ""), detail=str(next(iter(frqs)))[:120])
         else:
-            ck.violation("C17.R2", q, f"psd_{c}", f"`psd_{c}` is computed as `{unparse(st.value) if st is not None else None}`; expected {want}", loc=f.loc())
-    rets = [r for r in own_nodes(f.node) if isinstance(r, ast.Return)]
-    good = False
-    if len(rets) == 1 and isinstance(rets[0].value, ast.Call) and call_name(rets[0].value) == "dict":
-        kws = {k.arg: unparse(k.value) for k in rets[0].value.keywords}
-        good = kws == {c: f"Psd(fft_frq, psd_{c})" for c in ("ns", "ew", "vt")}
-    if good:
-        ck.ok("C17.R2", q, norm_key(rets[0], 110), detail="key k carries component k")
-    else:
-        ck.violation("C17.R2", q, "result keys", "the result keys ns/ew/vt do not carry the matching component PSDs", loc=f.loc())
-    sm = [st for st in f.node.body if isinstance(st, ast.If) and unparse(st.test) == "settings.smoothing is not None"]
-    if len(sm) != 1:
-        raise AnalysisError(f"{q}: optional smoothing block not found")
-    body = sm[0].body
-    rows_in = {unparse(st.targets[0]): unparse(st.value) for st in body if isinstance(st, ast.Assign) and unparse(st.targets[0]).startswith("spectra[")}
-    rows_out = {unparse(st.targets[0]): unparse(st.value) for st in body if isinstance(st, ast.Assign) and unparse(st.targets[0]).startswith("psd_")}
-    good = rows_in == {"spectra[0]": "psd_ns", "spectra[1]": "psd_ew", "spectra[2]": "psd_vt"} and \
-        rows_out == {"psd_ns": "smooth_spectra[0]", "psd_ew": "smooth_spectra[1]", "psd_vt": "smooth_spectra[2]"}
-    frq = [st for st in body if isinstance(st, ast.Assign) and unparse(st.targets[0]) == "fft_frq"]
-    good = good and len(frq) == 1 and unparse(frq[0].value) == "fcs"
-    if good:
-        ck.ok("C17.R2", q, "smoothing rows 0,1,2 = ns,ew,vt in and out; frequency axis becomes fcs")
-    else:
-        ck.violation("C17.R2", q, "smoothing rows", f"rows in {rows_in}, rows out {rows_out}: components are not kept aligned through the smoothing", loc=f.loc(sm[0]))
+            ck.violation("C17.R2", q, f"component alignment ({label})", "the result keys ns/ew/vt do not carry the matching component PSDs: " + "; ".join(bad[:3]), loc=f.loc())
+    if seen != {True, False}:
+        ck.violation("C17.R2", q, "optional smoothing", f"the routine does not distinguish configured from absent smoothing (cases {sorted(seen)})", loc=f.loc())
     old = C01.P
     C01.P = "C17.R3#"
     try:
@@ -309,49 +334,170 @@ def _r4(ck: Checker, prog: Program):
         ck.violation("C17.R4", q, "fft length", "the FFT length is not prepared before the records are transformed", loc=f.loc())
 
 
+def _elementwise_inverse(r):
+    """Per-bin value of the array that multiplies the spectrum in _remove_instrument_response, as a table over
+    (|h| > 0, bin is the DC bin).  Masked stores are interpreted elementwise: X[m] = v -> X_i = v_i if m_i else X_i.
+    Values are kept as functions of the two bin predicates and tabulated on their four combinations."""
+    H = sp.Symbol("h_i")
+    UNDEF = sp.Symbol("<undefined>")
+    vals: Dict[str, object] = {}          # name -> callable(nz, dc) -> sympy value | bool
+    hname = hsrc = None
+
+    def const(c):
+        return lambda nz, dc, c=c: c
+
+    def ev(e):
+        if isinstance(e, ast.Constant):
+            if isinstance(e.value, bool):
+                return const(e.value)
+            return const(sp.nsimplify(e.value))
+        if isinstance(e, ast.Call) and call_name(e) == "complex" and all(isinstance(a, ast.Constant) and a.value == 0 for a in e.args):
+            return const(sp.Integer(0))
+        if isinstance(e, ast.Name) and e.id == hname:
+            return const(H)
+        if isinstance(e, ast.Name) and e.id in vals:
+            return vals[e.id]
+        if isinstance(e, ast.Subscript) and isinstance(e.value, ast.Name):
+            return ev(e.value)            # x[mask]: the element itself
+        if isinstance(e, ast.BinOp) and isinstance(e.op, ast.Div):
+            a, b = ev(e.left), ev(e.right)
+            return None if a is None or b is None else (lambda nz, dc, a=a, b=b: a(nz, dc) / b(nz, dc))
+        if isinstance(e, ast.UnaryOp) and isinstance(e.op, (ast.Invert, ast.Not)):
+            a = ev(e.operand)
+            return None if a is None else (lambda nz, dc, a=a: not a(nz, dc))
+        if isinstance(e, ast.Compare) and len(e.ops) == 1 and isinstance(e.ops[0], ast.Gt) and isinstance(e.left, ast.Call) and call_name(e.left) in ("abs", "absolute") \
+                and isinstance(e.left.args[0], ast.Name) and e.left.args[0].id == hname and isinstance(e.comparators[0], ast.Constant) and e.comparators[0].value == 0:
+            return lambda nz, dc: nz
+        return None
+    for st in r.node.body:
+        if not (isinstance(st, ast.Assign) and len(st.targets) == 1):
+            continue
+        t, v = st.targets[0], st.value
+        if isinstance(t, ast.Name):
+            if isinstance(v, ast.Call) and call_name(v) == "_h":
+                hname, hsrc = t.id, unparse(v)
+            elif isinstance(v, ast.Call) and call_name(v) in ("empty_like", "empty") and hname:
+                vals[t.id] = const(UNDEF)
+            elif isinstance(v, ast.Call) and call_name(v) in ("zeros_like", "zeros") and hname:
+                vals[t.id] = const(sp.Integer(0))
+            elif hname:
+                x = ev(v)
+                if x is not None:
+                    vals[t.id] = x
+        elif isinstance(t, ast.Subscript) and isinstance(t.value, ast.Name) and t.value.id in vals:
+            x = ev(v)
+            if x is None:
+                return None
+            ix = t.slice
+            if isinstance(ix, ast.Constant) and ix.value == 0 and not isinstance(ix.value, bool):
+                cond = lambda nz, dc: dc      # noqa: E731
+            else:
+                cond = ev(ix)
+                if cond is None:
+                    return None
+            cur = vals[t.value.id]
+            vals[t.value.id] = lambda nz, dc, cond=cond, x=x, cur=cur: x(nz, dc) if cond(nz, dc) else cur(nz, dc)
+    mult = [st for st in r.node.body if isinstance(st, ast.AugAssign) and isinstance(st.op, ast.Mult) and isinstance(st.value, ast.Name) and st.value.id in vals]
+    if not mult:
+        return None
+    name = mult[0].value.id
+    tab = {}
+    for nz in (True, False):
+        for z in (True, False):
+            v = vals[name](nz, z)
+            tab[(nz, z)] = None if (hasattr(v, "has") and v.has(UNDEF)) or isinstance(v, bool) else sp.simplify(v)
+    return name, tab, hsrc
+
+
 def _transforms(ck: Checker, prog: Program):
+    from ..pathtable import PathTable, literals, same_rel, negate
+    R = lambda n: sp.Symbol(n, real=True)   # noqa: E731
+    gi, sl, NONE = sp.Function("getitem"), sp.Function("slice"), sp.Symbol("None")
+    TS, FS, TT_ = R("timeseries"), R("fft_settings"), R("transform_type")
+    AMP, NSAMP, DT = sp.Function("attr_amplitude")(TS), sp.Function("attr_n_samples")(TS), sp.Function("attr_dt_in_seconds")(TS)
+    N = sp.Function("get")(FS, sp.Symbol("'n'"), NSAMP)
+    FFT = sp.Function("rfft")(AMP)
+    FRQ = sp.Function("rfftfreq")(N, DT)
+
+    def pipeline_ok(v, mult_of):
+        """v == TimeSeries(irfft(rfft(amplitude)*X, n)[:n_samples], dt) -> X"""
+        if getattr(getattr(v, "func", None), "__name__", "") != "TimeSeries" or len(v.args) < 2 or v.args[1] != DT:
+            return None
+        d = v.args[0]
+        if getattr(d, "func", None) != gi or d.args[1] != sl(NONE, NSAMP, NONE):
+            return None
+        inv = d.args[0]
+        if getattr(getattr(inv, "func", None), "__name__", "") != "irfft" or len(inv.args) != 2 or inv.args[1] != N:
+            return None
+        x = sp.simplify(inv.args[0] / FFT)
+        return None if x.has(FFT) else x
+
+    def zero(v):
+        return v == 0 or (getattr(getattr(v, "func", None), "__name__", "") == "complex" and all(a == 0 for a in v.args))
+    # ---- derivative / integral
     f = prog.func("instrument_response._domain_transform")
     q = f.qualname
-    T = Translator()
-    frq = T.sym("frq")
-    br = {}
-    for st in own_nodes(f.node):
-        if isinstance(st, ast.If) and isinstance(st.test, ast.Compare) and unparse(st.test.left) == "transform_type":
-            for b in st.body:
-                if isinstance(b, ast.Assign) and isinstance(b.targets[0], ast.Name):
-                    br[st.test.comparators[0].value] = T.tr(b.value)
-    want = {"derivative": 2 * sp.pi * frq * sp.I, "integral": 1 / (2 * sp.pi * frq * sp.I)}
-    for k, w in want.items():
-        g = br.get(k)
-        if g is not None and sp.simplify(g - w) == 0:
-            ck.ok("C17.R4", q, f"{k}: transfer = {w}")
+    leaves = PathTable(prog, f.module, structured=True).leaves(f.node.body)
+    want = {"derivative": 2 * sp.pi * FRQ * sp.I, "integral": 1 / (2 * sp.pi * FRQ * sp.I)}
+    seen = set()
+    pipe_ok = True
+    from ..pathtable import holds
+    pairs = []
+    for k in list(want) + ["<other>"]:
+        assign = {TT_: sp.Symbol(f"'{k}'")}
+        for l in leaves:
+            vals = [holds(x, assign) for x in literals(l) if x.has(TT_)]
+            if any(v is None for v in vals):
+                raise AnalysisError(f"{q}: a condition on the transform type could not be evaluated ({[str(x) for x in literals(l)]})")
+            if all(vals):
+                pairs.append((k, l))
+    for kind, l in pairs:
+        if kind == "<other>":
+            if l.exit != "raise":
+                ck.violation("C17.R4", q, "unknown transform", "an unknown transform type does not raise", loc=f.loc())
+            continue
+        if l.exit != "return":
+            ck.violation("C17.R4", q, f"{kind} transfer function", f"{kind}: no series is returned", loc=f.loc())
+            continue
+        seen.add(kind)
+        x = pipeline_ok(l.value, None)
+        if x is None:
+            pipe_ok = False
+            continue
+        dc = [e for e in l.events if e[0] == "store" and id(e[3]) in l.store_at and l.store_at[id(e[3])][1] == 0]
+        dc_ok = (kind == "derivative" and not dc) or (kind == "integral" and len(dc) == 1 and zero(dc[0][2]) and sp.simplify(l.store_at[id(dc[0][3])][0] - x) == 0)
+        if sp.simplify(x - want[kind]) == 0 and dc_ok:
+            ck.ok("C17.R4", q, f"{kind}: transfer = {want[kind]}" + (" with the DC bin set to 0" if kind == "integral" else ""))
         else:
-            ck.violation("C17.R4", q, f"{k} transfer function", f"{k} multiplies the spectrum by {g}; expected {w}", loc=f.loc())
-    for g_ in (f, prog.func("instrument_response._remove_instrument_response")):
-        d = {unparse(st.targets[0]): unparse(st.value) for st in g_.node.body if isinstance(st, ast.Assign)}
-        rets = [r for r in own_nodes(g_.node) if isinstance(r, ast.Return)]
-        good = d.get("fft") == "np.fft.rfft(timeseries.amplitude, **fft_settings)" and d.get("frq") == "np.fft.rfftfreq(n, d=timeseries.dt_in_seconds)" \
-            and d.get("n") == "fft_settings.get('n', timeseries.n_samples)" and d.get("ifft") == "ifft[:timeseries.n_samples]" \
-            and len(rets) == 1 and unparse(rets[0].value) == "TimeSeries(ifft, dt_in_seconds=timeseries.dt_in_seconds)"
-        first_ifft = [st for st in g_.node.body if isinstance(st, ast.Assign) and unparse(st.targets[0]) == "ifft"]
-        good = good and first_ifft and unparse(first_ifft[0].value) == "np.fft.irfft(fft, n)"
-        mul = [st for st in g_.node.body if isinstance(st, ast.AugAssign) and unparse(st.target) == "fft" and isinstance(st.op, ast.Mult)]
-        good = good and len(mul) == 1
-        if good:
-            ck.ok("C17.R4", g_.qualname, "rfft -> multiply -> irfft(n) -> first n_samples -> new TimeSeries with the same dt")
-        else:
-            ck.violation("C17.R4", g_.qualname, "transform pipeline", "the series is not transformed as rfft(**fft_settings) -> multiply -> irfft(n)[:n_samples] into a new TimeSeries of the same time step",
-                         loc=g_.loc())
+            ck.violation("C17.R4", q, f"{kind} transfer function", f"{kind} multiplies the spectrum by {x} (DC bin handled: {dc_ok}); expected {want[kind]}", loc=f.loc())
+    for k in want:
+        if k not in seen:
+            ck.violation("C17.R4", q, f"{k} transfer function", f"{k} multiplies the spectrum by None; expected {want[k]}", loc=f.loc())
+    if pipe_ok:
+        ck.ok("C17.R4", q, "rfft -> multiply -> irfft(n) -> first n_samples -> new TimeSeries with the same dt")
+    else:
+        ck.violation("C17.R4", q, "transform pipeline", "the series is not transformed as rfft(**fft_settings) -> multiply -> irfft(n)[:n_samples] into a new TimeSeries of the same time step", loc=f.loc())
+    # ---- response removal: elementwise value of the multiplier over (|h| > 0, bin is DC)
     r = prog.func("instrument_response._remove_instrument_response")
-    d = [(unparse(st.targets[0]), unparse(st.value)) for st in r.node.body if isinstance(st, ast.Assign)]
-    need = [("h", "instrument_transfer_function._h(frq)"), ("non_zero_hs", "np.abs(h) > 0.0"), ("invh[non_zero_hs]", "1 / h[non_zero_hs]"),
-            ("invh[~non_zero_hs]", "complex(0.0, 0.0)"), ("invh[0]", "complex(0.0, 0.0)")]
-    missing = [n for n in need if n not in d]
-    mul = [st for st in r.node.body if isinstance(st, ast.AugAssign) and unparse(st.target) == "fft"]
-    if not missing and mul and unparse(mul[0].value) == "invh":
+    leaves = [l for l in PathTable(prog, r.module, structured=True).leaves(r.node.body) if l.exit == "return"]
+    x = pipeline_ok(leaves[0].value, None) if len(leaves) == 1 else None
+    if x is not None:
+        ck.ok("C17.R4", r.qualname, "rfft -> multiply -> irfft(n) -> first n_samples -> new TimeSeries with the same dt")
+    else:
+        ck.violation("C17.R4", r.qualname, "transform pipeline", "the series is not transformed as rfft(**fft_settings) -> multiply -> irfft(n)[:n_samples] into a new TimeSeries of the same time step", loc=r.loc())
+    table = _elementwise_inverse(r)
+    if table is None:
+        raise AnalysisError(f"{r.qualname}: construction of the inverse response not recognised")
+    mult_name, tab, hsrc = table
+    H = sp.Symbol("h_i")
+    want_t = {(True, False): 1 / H, (True, True): sp.Integer(0), (False, False): sp.Integer(0), (False, True): sp.Integer(0)}
+    mul = [st for st in r.node.body if isinstance(st, ast.AugAssign) and isinstance(st.op, ast.Mult) and isinstance(st.value, ast.Name) and st.value.id == mult_name]
+    h_ok = hsrc == "instrument_transfer_function._h(frq)"
+    if all(sp.simplify(tab[k] - want_t[k]) == 0 if tab[k] is not None else False for k in want_t) and mul and h_ok:
         ck.ok("C17.R4", r.qualname, "spectrum multiplied by 1/H; zero-response bins and the DC bin set to 0")
     else:
-        ck.violation("C17.R4", r.qualname, "inverse response", f"the inverse response is not 1/H with zero-response and DC bins zeroed (missing {missing})", loc=r.loc())
+        ck.violation("C17.R4", r.qualname, "inverse response",
+                     f"the inverse response is not 1/H with zero-response and DC bins zeroed (per bin, (|H|>0, DC) -> value: { {k: str(v) for k, v in tab.items()} }; H = {hsrc})", loc=r.loc())
     h = prog.func("instrument_response.InstrumentTransferFunction._h")
     d = [unparse(st) for st in h.node.body]
     good = any("signal.zpk2tf(self.zeros, self.poles, 1.0)" in x for x in d) and any("signal.freqs(b, a, frequencies * 2 * np.pi)" in x for x in d) \
